@@ -259,6 +259,75 @@ def unescape_single_pass(model: Model, run: Run) -> None:
         run.fail(Finding("U1-unescape-single-pass", fi.qualname, f"{len(subs)} substitutions", "the qdstring un-escaper is not a single regex substitution", model.loc(SCHEMA, fi.node)))
 
 
+def defaults_are_what_the_parser_stores(model: Model, run: Run, rule: str = "H22-defaults-are-what-the-parser-stores") -> None:
+    """H22: a definition built by hand with a clause left at its default equals the definition parsed from its text: for the
+    collection-valued fields that means the default and what from_string stores for an absent clause are the same *kind* of
+    collection (`() != []`: a tuple default next to a parser that builds lists makes every hand-built definition with an absent
+    clause unequal to its own re-parsed text)."""
+    def kinds_of(e: ast.expr, fi, depth: int = 0) -> Set[str]:
+        out: Set[str] = set()
+        if isinstance(e, (ast.List, ast.ListComp)):
+            out.add("list")
+        elif isinstance(e, ast.Tuple):
+            out.add("tuple")
+        elif isinstance(e, (ast.Dict, ast.DictComp)):
+            out.add("dict")
+        elif isinstance(e, ast.IfExp):
+            out |= kinds_of(e.body, fi, depth) | kinds_of(e.orelse, fi, depth)
+        elif isinstance(e, ast.BoolOp):
+            for v in e.values:
+                out |= kinds_of(v, fi, depth)
+        elif isinstance(e, ast.Call) and isinstance(e.func, ast.Name) and e.func.id in ("list", "tuple", "dict", "sorted"):
+            out.add("list" if e.func.id == "sorted" else e.func.id)
+        elif isinstance(e, ast.Call) and isinstance(e.func, ast.Name) and depth < 2:
+            q = model.resolve_name(SCHEMA, e.func.id)
+            g = model.functions.get(q) if q else None
+            if g is not None and not isinstance(g.node, ast.Lambda):
+                binds = {}
+                for a in walk_no_nested(g.node):
+                    if isinstance(a, (ast.Assign, ast.AnnAssign)) and a.value is not None:
+                        for t_ in (a.targets if isinstance(a, ast.Assign) else [a.target]):
+                            if isinstance(t_, ast.Name):
+                                binds.setdefault(t_.id, []).append(a.value)
+                for r in walk_no_nested(g.node):
+                    if isinstance(r, ast.Return) and r.value is not None:
+                        if isinstance(r.value, ast.Name):
+                            for b in binds.get(r.value.id, []):
+                                out |= kinds_of(b, g, depth + 1)
+                        else:
+                            out |= kinds_of(r.value, g, depth + 1)
+        return out
+    n = 0
+    for cname in CLASSES:
+        q = f"{SCHEMA}.{cname}"
+        fs = model.find_method(q, "from_string")
+        if fs is None:
+            continue
+        ctor_kw = {}
+        for c in ast.walk(fs.node):
+            if isinstance(c, ast.Call) and isinstance(c.func, ast.Name) and c.func.id == cname:
+                for k in c.keywords:
+                    if k.arg:
+                        ctor_kw[k.arg] = k.value
+        for f in model.dataclass_fields(q):
+            dk: Set[str] = set()
+            if f.default is not None:
+                dk = kinds_of(f.default, fs)
+            elif f.default_factory is not None:
+                dk = {norm(f.default_factory)} & {"list", "tuple", "dict"}
+            pk = kinds_of(ctor_kw[f.name], fs) if f.name in ctor_kw else set()
+            if not dk or not pk:
+                continue
+            n += 1
+            ok = dk <= pk
+            run.ob(rule, ok, {"class": cname, "field": f.name, "default": sorted(dk), "parsed": sorted(pk)})
+            if not ok:
+                run.fail(Finding(rule, q, f"{f.name}: default {sorted(dk)} vs parsed {sorted(pk)}",
+                                 f"{cname}.{f.name} defaults to a {'/'.join(sorted(dk))} while from_string stores a {'/'.join(sorted(pk))}: a definition built with the clause left out "
+                                 "writes the same text as its parsed twin and does not equal it", model.loc(model.classes[q].module, model.classes[q].node)))
+    run.floor("collection-valued schema fields with a default", n, 8)
+
+
 def check(model: Model, run: Run) -> None:
     run.explanation = ("necessary conditions of the text round trip, decided on constants recovered from the source: (1) escape agreement - every character the writer's "
                        "class escapes maps (by the callback's format) to an escape the RFC grammar and the reader's un-escape pattern know, and every character it "
@@ -266,6 +335,8 @@ def check(model: Model, run: Run) -> None:
                        "keyword order each __str__ can emit is a path through the description pattern (inclusion of a generated skeleton language); (4) every dataclass "
                        "field is written by __str__ and assigned in from_string. Equality of the whole definition after the round trip (post-regex extraction) is NOT decided")
     folder = Folder(model)
+    from ..commonrules import values_compare_by_their_fields
+    values_compare_by_their_fields(model, run, "H21-definitions-compare-by-their-fields", [f"{SCHEMA}.{c}" for c in CLASSES], "a definition no longer equals its own re-parsed text form")
     from ..commonrules import no_memoised_views_of_fields, memoised_results_are_immutable
     no_memoised_views_of_fields(model, run, "H19-text-is-computed-when-asked", [f"{SCHEMA}.{c}" for c in CLASSES],
                                 "str() keeps giving the first text after a list or the extensions of the definition were changed in place, and that text no longer parses back to the definition")
@@ -346,6 +417,7 @@ def check(model: Model, run: Run) -> None:
                              f"the serialiser can emit {shown!r} for a description/extension text, which the library's own QDSTRING fragment does not match: from_string rejects str()'s output",
                              model.loc(SCHEMA, wsite.node)))
     int_presence_tests(model, run)
+    defaults_are_what_the_parser_stores(model, run)
     parsed_numbers_kept(model, run)
     decoder_strips_only_the_quotes(model, run)
     presence_tests_guard_their_own_field(model, run)
